@@ -39,8 +39,11 @@ def clause_key(name):
 # property map: which obligations decide which property
 # --------------------------------------------------------------------------
 def obligations_for(prop, con, ob_name, kind):
-    from props.table import OWNED
+    from props.table import OWNED, PROPS
     key = clause_key(ob_name)
+    only = PROPS.get(prop, {}).get("only")
+    if only and not re.search(only, key):
+        return False
     for rx, owners in OWNED:
         if re.search(rx, key):
             return prop in owners
